@@ -18,6 +18,7 @@ Definition src_permits (p : policy) (target : bytes) (via : list bytes) : bool :
   | PAllowedHost hs => src_permits_allowed_host hs target via
   | PAllowedDomain hs => src_permits_allowed_domain hs target via
   | PAlwaysCopy _ => src_permits_always_copy target via
+  | PFault k => negb (Nat.eqb (length via) k)   (* user-defined (harness), not in redirect.go *)
   | PNil => true                        (* `if f == nil { continue }` - see set_policy_skips_nil *)
   end.
 
